@@ -64,7 +64,8 @@ def handleC03 : List String → Option String
     if !compiles e m then
       -- SetBPFFilter fails, the scan does not start: nothing can be reported
       return s!"CE\t{b2s (obs == "CE" && spec.all (·.isNone))}"
-    let outs := run scan {} frames
+    -- the filter sees the frame, the processor the bytes the ring holds of it
+    let outs := run scan {} (frames.map (captured (snaplen fn)))
     let modelStr := if frames.isEmpty then "-" else
       "|".intercalate ((List.zip frames outs).map (fun (f, o) => (if accepts e m f then "A;" else "D;") ++ outStr o))
     let obsL := if obs == "-" then [] else obs.splitOn "|"
